@@ -242,6 +242,11 @@ func (e *Endpoint) check() error {
 	if strings.TrimSpace(e.Path) == "" {
 		return errors.New("path is missing")
 	}
+	// The path must be a route template the router can build, else the
+	// endpoint would be registered, but never served.
+	if err := mux.NewRouter().Path(apiV1Path + e.Path).GetError(); err != nil {
+		return fmt.Errorf("invalid path: %w", err)
+	}
 
 	// Check permissions.
 	if e.Read < Dynamic || e.Read > PermitSelf {
